@@ -23,6 +23,13 @@ func init() {
 	// C19.accept
 	add("c19-accept-inverted", "C19.accept", fd, "if !t.tcpState.CheckState(tcp, dir) {", "if t.tcpState.CheckState(tcp, dir) {", "Accept:")
 	add("c19-complete-true", "C19.accept", fd, "\t// do not remove the connection to allow last ACK\n\treturn false", "\treturn true", "ReassemblyComplete")
+	// C19.start
+	add("c19-start-forced", "C19.start", fd, "\t// TODO: checksum?\n\n\t// accept\n\treturn true", "\t*start = true\n\treturn true", "start-not-forced")
+	add("c19-start-forced-closure", "C19.start", fd, "\t// TODO: checksum?\n\n\t// accept\n\treturn true",
+		"\tforce := func(b bool) { *start = b }\n\tif nextSeq == 0 {\n\t\tforce(!tcp.RST)\n\t}\n\treturn true", "start-not-forced")
+	add("c19-start-escapes", "C19.start", fd, "\t// TODO: checksum?\n\n\t// accept\n\treturn true", "\tfmt.Sprint(start)\n\treturn true", "start-confined")
+	add("c19-start-segment-write", "C19.start", fd, "\t// TODO: checksum?\n\n\t// accept\n\treturn true", "\tif tcp.SYN && len(tcp.Payload) > 0 {\n\t\ttcp.Payload = nil\n\t}\n\treturn true", "segment-readonly")
+	add("c19-start-keepfrom", "C19.start", fd, "\tdata := sg.Fetch(length)\n", "\tdata := sg.Fetch(length)\n\tsg.KeepFrom(0)\n", "sg-readonly")
 	// C19.endpoint
 	add("c19-endpoint-ip-swapped", "C19.endpoint", fd, "IP:   slices.Clone(net.Src().Raw()),", "IP:   slices.Clone(net.Dst().Raw()),", "Client.IP")
 	add("c19-endpoint-port-le", "C19.endpoint", fd, "serverPort = int(binary.BigEndian.Uint16(transport.Dst().Raw()))", "serverPort = int(binary.LittleEndian.Uint16(transport.Dst().Raw()))", "Server.Port")
